@@ -71,8 +71,32 @@ def _free(draw):
             "simplify": draw(st.sampled_from([True, True, False])), "order": draw(gens.order_s())}
 
 
+@st.composite
+def _kay2(draw):
+    """the other orientation of a multi-variable elimination: dividend and divisor share their inputs u1..uk, the dividend bounds
+    its output by a combination of all of them, the divisor has one output per input with a guarantee row whose diagonal entry may
+    or may not dominate the couplings; the quotient has to trade the u's for the divisor's outputs in one step"""
+    k = draw(st.sampled_from([3, 3, 4, 2]))
+    us = ["u1", "u2", "u3", "u4"][:k]
+    xs = ["x1", "x2", "x3", "x4"][:k]
+    sg = draw(st.sampled_from([1.0, -1.0]))
+    top_g = [[dict({"y": -sg}, **{u: sg * draw(st.sampled_from([1, 1, 2, 0.5])) for u in us}), float(draw(st.integers(0, 2)))]]
+    g1 = []
+    for i, (u, x) in enumerate(zip(us, xs)):
+        row = {x: -sg, u: sg * draw(st.sampled_from([4, 3, 2, 1]))}
+        for j, o in enumerate(us):
+            if j != i and draw(st.booleans()):
+                row[o] = sg * draw(st.sampled_from([3, 1, 0.5, 2, 3]))
+        g1.append([row, float(draw(st.integers(0, 1)))])
+    g1 = list(draw(st.permutations(g1))) if draw(st.booleans()) else g1
+    c = {"a": [], "g": top_g, "i": us, "o": ["y"]}
+    c1 = {"a": [], "g": g1, "i": us, "o": xs}
+    return {"mode": "free", "c": c, "c1": c1, "rel": "kaykobad2", "addl_pick": draw(st.lists(st.booleans(), min_size=6, max_size=6)),
+            "simplify": draw(st.sampled_from([True, True, False])), "order": draw(gens.order_s())}
+
+
 def strategy(tier):
-    return st.one_of(_built(), _built(), _built(), _free(), _free(), _free(), _free(), _kay(), _kay())
+    return st.one_of(_built(), _built(), _built(), _free(), _free(), _free(), _free(), _kay(), _kay(), _kay2())
 
 
 def run_case(case):
